@@ -180,8 +180,8 @@ PROPS["C01"] = {
 }
 PROPS["C08"] = {
     "translators": ["consts", "tower"],
-    "lean_targets": prop_modules("C08"),
-    "theorems": lambda: thms("C08"),
+    "lean_targets": prop_modules("C08", extra=("JediVerif.Properties.C08b",)),
+    "theorems": lambda: thms("C08", extra=(("JediVerif.Properties.C08b", "Jedi.C08"),)),
     "streams": stream_set([("pairing", 6)], ["asm", "portable64"], ALLCFG, scale=3),
     "filter": lambda l: l.startswith(("pairing_sum", "pairing_prep", "prepare", "pairing ")),
 }
